@@ -149,6 +149,8 @@ class Serializable(object):  # pylint: disable=too-few-public-methods
                 )
                 for key, value in Serializable._get_ordered_dict(obj).items()
             ])
+        elif isinstance(obj, Serializable._MARKDOWN_RESULT_STRING_CLASSES):
+            result = result_func(obj)
         elif hasattr(obj, '__dict__'):
             result = Serializable._json_traverse(obj.__dict__, result_func)
         elif isinstance(obj, (frozenset, set)):
